@@ -377,7 +377,12 @@ def gen_seq(rng):
                             max(0, size - 300)])
         start = min(start, size)
         rest = max(0, size - start)
-        length = rng.choice([0, 0, 0, 0, rest, rest + 1000, rng.randrange(0, rest + 1)])
+        length = rng.choice([0, 0, 0, rest, rest + 1000, rest + 1000, rest + rng.randrange(1, 5000),
+                             rng.randrange(0, rest + 1)])
+        if length > rest:
+            # a range running past end of file ends in a short read; remember where a position cache
+            # that counted the REQUESTED bytes would now stand
+            marks.extend([start + length, size + CHUNK])
         eff = rest if length == 0 else min(length, rest)
         bs = rng.choice([0, 0, 256, 1000, 4096, CHUNK, CHUNK + 1, rng.randrange(256, max(257, eff + 2))])
         if bs >= 256 and eff // bs > 100:
@@ -385,14 +390,23 @@ def gen_seq(rng):
         steps.append({"kind": "check", "alg": rng.choice(["md5", "sha1", "md5", "sha1", rng.choice(ALG_LISTS)]),
                       "start": start, "length": length, "block_size": bs})
         if i < n - 1:
-            k = rng.choice(["append-handle", "append-handle", "append-handle", "append-local", "overwrite-handle",
-                            "none"])
+            k = rng.choice(["append-handle", "append-handle", "append-local", "append-other-handle",
+                            "append-other-handle", "overwrite-handle", "read-handle", "none"])
             if k == "append-handle":
                 add_write(k)
-            elif k == "append-local":
-                m = rng.choice([1, 255, 256, 1000, CHUNK, rng.randrange(1, 100000)])
+            elif k in ("append-local", "append-other-handle"):
+                m = rng.choice([1, 255, 256, 1000, 3000, CHUNK, 2 * CHUNK, rng.randrange(1, 100000)])
                 steps.append({"kind": k, "n": m})
                 size += m
+            elif k == "read-handle":
+                off = rng.choice([max(0, size - 100), rng.randrange(0, size + 1), size])
+                m = rng.choice([50, 500, 5000, REQ])
+                steps.append({"kind": k, "off": off, "n": m})
+                marks.extend([off + m, min(size, off + m)])
+                if rng.random() < 0.7:
+                    g = rng.choice([1000, 3000, CHUNK, rng.randrange(1, 100000)])
+                    steps.append({"kind": rng.choice(["append-local", "append-other-handle"]), "n": g})
+                    size += g
             elif k == "overwrite-handle" and size > 0 and mode != "a+":
                 off = rng.randrange(0, size)
                 m = min(size - off, rng.choice([1, 100, 5000, CHUNK]))
@@ -435,11 +449,29 @@ def run_seq(ctx, rig_box, root, repo, case, findings, cases, name="q"):
                         fobj.seek(len(data))
                     fobj.write(blob)
                     fobj.flush()
+                elif k == "append-other-handle":
+                    # the file grows through ANOTHER handle of the same session
+                    o = rig.sftp.open("/" + name, "a" if st["n"] % 2 else "r+")
+                    try:
+                        o.seek(len(data))
+                        o.write(blob)
+                        o.flush()
+                    finally:
+                        o.close()
                 else:
                     with open(path, "ab") as fh:
                         fh.write(blob)
                 data += blob
                 changed = True
+            elif k == "read-handle":
+                fobj.seek(st["off"])
+                got = fobj.read(st["n"])
+                if mode != "a+" and got != bytes(data[st["off"]:st["off"] + st["n"]]):
+                    findings.append("read")
+                    ctx.fail("read-on-checked-handle-wrong-data",
+                             "a read through the handle used for check-file returned other bytes than the file has",
+                             case=dict(case, failing_step=i), expected=bytes(data[st["off"]:st["off"] + st["n"]])[:64],
+                             observed=(got or b"")[:64])
             elif k == "overwrite-handle":
                 blob = seq_bytes(case["data_seed"], i, st["n"])
                 fobj.seek(st["off"])
@@ -520,7 +552,9 @@ def run(ctx):
                 "multiples and EOF, lengths 0 / to EOF / past EOF / chunk multiples / 2^40, block sizes 0, 256.., "
                 "(non-)multiples of 64 KiB, < 256 (must be refused); md5 and sha1 alternating; every call under a "
                 "%.0f s watchdog; plus sequences on ONE open handle (opened r+, a+ or w+; other handles opened and closed "
-                "meanwhile in the same and in a second session on the transport): check, the file grows (write through the handle or by "
+                "meanwhile in the same and in a second session on the transport; ranges and reads that run past end of "
+                "file, then growth through ANOTHER handle, then a check at the offset a cache counting requested "
+                "bytes would hold): check, the file grows (write through the handle or by "
                 "another writer) or is overwritten through the handle, check again (2-4 checks, mostly length 0), every "
                 "check compared with the file as it is then; a case is non-trivial when distinct and at least one block "
                 "is hashed" % WATCHDOG)
@@ -547,6 +581,14 @@ def run(ctx):
                 rig_box[0] = Rig(ctx.repo, root)
             for i in range(25 * scale):
                 case = gen_seq(ctx.rng)
+                if i == 3:      # range past end of file, the file grows through another handle, check beyond
+                    case = {"seq": True, "mode": "r+", "size0": 1000, "data_seed": 13, "steps": [
+                        {"kind": "check", "alg": "md5", "start": 0, "length": 2000, "block_size": 0},
+                        {"kind": "append-other-handle", "n": 3000},
+                        {"kind": "check", "alg": "md5", "start": 2000, "length": 1000, "block_size": 0},
+                        {"kind": "read-handle", "off": 3900, "n": 500},
+                        {"kind": "append-local", "n": 1000},
+                        {"kind": "check", "alg": "sha1", "start": 4400, "length": 0, "block_size": 0}]}
                 if i == 1:      # upload then verify through the same handle
                     case = {"seq": True, "mode": "w+", "size0": 900, "data_seed": 11, "steps": [
                         {"kind": "append-handle", "n": 20000},
